@@ -351,9 +351,12 @@ fn run_cfg(cfg: &Config, acc: &mut Acc) {
 const L1_STATUSES: [u16; 12] = [200, 201, 204, 205, 299, 300, 304, 400, 404, 500, 599, 999];
 const L1_LENGTHS: [usize; 4] = [0, 5, 8193, 40000];
 
+/// request methods of the connection slice: only HEAD changes what a response carries
+const L1_METHODS: [&str; 6] = ["GET", "HEAD", "CONNECT", "OPTIONS", "DELETE", "PURGE"];
+
 fn l1_space() -> Space {
     // status x length x declared x method(GET/HEAD) x version x TE(absent/chunked/identity)
-    Space::new(&[L1_STATUSES.len(), L1_LENGTHS.len(), 2, 2, 2, 3])
+    Space::new(&[L1_STATUSES.len(), L1_LENGTHS.len(), 2, L1_METHODS.len(), 2, 3])
 }
 
 fn l1_run(idx: u64, acc: &mut Acc, replaying: bool) {
@@ -361,8 +364,9 @@ fn l1_run(idx: u64, acc: &mut Acc, replaying: bool) {
     use crate::runner::*;
     use tiny_http::verif_rt::core::RunCfg;
     let d = l1_space().decode(idx);
-    let (status, len, declared, head, v11, te) = (L1_STATUSES[d[0]], L1_LENGTHS[d[1]], d[2] == 0, d[3] == 1, d[4] == 1, d[5]);
-    let mut req = format!("{} /l1 HTTP/{}\r\nHost: t\r\n", if head { "HEAD" } else { "GET" }, if v11 { "1.1" } else { "1.0" });
+    let (status, len, declared, method, v11, te) = (L1_STATUSES[d[0]], L1_LENGTHS[d[1]], d[2] == 0, L1_METHODS[d[3]], d[4] == 1, d[5]);
+    let head = method == "HEAD";
+    let mut req = format!("{} /l1 HTTP/{}\r\nHost: t\r\n", method, if v11 { "1.1" } else { "1.0" });
     if !v11 {
         req.push_str("Connection: keep-alive\r\n");
     }
@@ -398,7 +402,7 @@ fn l1_run(idx: u64, acc: &mut Acc, replaying: bool) {
         let class = if head { "head" } else if status == 204 || status == 304 { "nobody-status" } else if v11 { "http11" } else { "http10" };
         acc.violation(
             &format!("connection:{}:{}", f.clause, class),
-            format!("[{}] {} (status {}, length {}, declared {}, HEAD {}, HTTP/1.{}, TE kind {})", f.clause, f.desc, status, len, declared, head, v11 as u8, te),
+            format!("[{}] {} (status {}, length {}, declared {}, method {}, HTTP/1.{}, TE kind {})", f.clause, f.desc, status, len, declared, method, v11 as u8, te),
             json!({"l1_index": idx, "scenario": scenario_json(&sc)}),
         );
     }
@@ -452,7 +456,7 @@ impl Check for C04 {
     }
     fn rule(&self, tier: Tier) -> String {
         let own = format!(
-            "full product status{:?} x body length{:?} x declared/undeclared x threshold{{0,1,len-1,len,len+1,default,usize::MAX}} x version{{1.0,1.1}} x HEAD/GET x TE{:?} x reader piece size{:?} (0=whole, max=irregular cycle, max-1=irregular cycle with a transient Interrupted error before every piece) x extra headers 0..{} x 6 sets of further request headers (Connection: close / keep-alive, Content-Length + Expect, Transfer-Encoding, Range + conditional + Upgrade: none is an input to the framing) = {} responses printed by Response::raw_print (those with whole-piece readers and no extra headers also right after another response printed by the same thread into a writer that breaks after 0 / 17 / 600 / 1500 / 1700 bytes: nothing of a response that could not be sent may reach the next one); each output must be consumed exactly by the independent RFC 7230 client parser, which must recover the status and exactly the body; plus {} responses sent through a real connection (status x length {{0,5,8193,40000}} x declared/undeclared x GET/HEAD x HTTP/1.0 keep-alive/1.1 x TE absent/chunked/identity, followed by a second request whose answer must be found right after); non-trivial = body length > 0",
+            "full product status{:?} x body length{:?} x declared/undeclared x threshold{{0,1,len-1,len,len+1,default,usize::MAX}} x version{{1.0,1.1}} x HEAD/GET x TE{:?} x reader piece size{:?} (0=whole, max=irregular cycle, max-1=irregular cycle with a transient Interrupted error before every piece) x extra headers 0..{} x 6 sets of further request headers (Connection: close / keep-alive, Content-Length + Expect, Transfer-Encoding, Range + conditional + Upgrade: none is an input to the framing) = {} responses printed by Response::raw_print (those with whole-piece readers and no extra headers also right after another response printed by the same thread into a writer that breaks after 0 / 17 / 600 / 1500 / 1700 bytes: nothing of a response that could not be sent may reach the next one); each output must be consumed exactly by the independent RFC 7230 client parser, which must recover the status and exactly the body; plus {} responses sent through a real connection (status x length {{0,5,8193,40000}} x declared/undeclared x GET/HEAD/CONNECT/OPTIONS/DELETE/PURGE x HTTP/1.0 keep-alive/1.1 x TE absent/chunked/identity, followed by a second request whose answer must be found right after); non-trivial = body length > 0",
             STATUSES, lengths(tier), TES, pieces(tier), if tier == Tier::Quick { 1 } else { 2 }, space(tier).size(), l1_space().size()
         );
         format!("{} || {} {:?}", own, crate::props::product::RULE, PRODUCT_CLAUSES)
